@@ -151,6 +151,24 @@ fn gen_log_world(seed: u64, idx: usize) -> LogWorldScenario {
         let bi = rng.below(script.behav.len());
         script.behav[bi].code = *rng.pick(&[1, 3, 70]);
         script.prio = vec![(script.behav[bi].target.clone(), 1)];
+        if rng.chance(2, 3) {
+            // its last words are long: the compressor is still busy with them when the failure is noticed
+            let tag = format!("{}@{}", script.behav[bi].command, script.behav[bi].target);
+            for fd in [1u8, 2u8] {
+                let mut v = Vec::new();
+                let total = 150 * 1024 + rng.below(250 * 1024);
+                let mut n = 0;
+                while v.len() < total {
+                    n += 1;
+                    v.extend_from_slice(format!("{} fd{} final{} ", tag, fd, n).as_bytes());
+                    for _ in 0..(40 + rng.below(120)) {
+                        v.push(b"ABCDEFGHIJKLMNOPQRSTUVWXYZabcdefghijklmnopqrstuvwxyz0123456789+/"[(rng.next_u64() & 63) as usize]);
+                    }
+                    v.push(b'\n');
+                }
+                script.behav[bi].outs.push(OutStep { fd, hex: hex(&v), pause_ms: 0 });
+            }
+        }
     }
     script.strategy = *rng.pick(&[Strategy::Uniform, Strategy::Uniform, Strategy::PlanOrder, Strategy::Reverse, Strategy::HoldM]);
     if !script.prio.is_empty() {
